@@ -69,38 +69,33 @@ func loadKnown(verifDir string) ([]knownFinding, []string) {
 		}
 		k := knownFinding{Raw: line}
 		rest := strings.TrimSpace(line[len("known:"):])
-		// fields: key=value separated by spaces; "what=" takes the rest of the line
-		for rest != "" {
-			eq := strings.IndexByte(rest, '=')
-			if eq < 0 {
-				break
-			}
-			key := rest[:eq]
-			rest = rest[eq+1:]
-			var val string
-			if key == "what" {
-				val, rest = rest, ""
-			} else if sp := strings.IndexByte(rest, ' '); sp >= 0 {
-				val, rest = rest[:sp], strings.TrimSpace(rest[sp+1:])
+		// layout: key=value ... pattern=<regex, may contain spaces> what=<free text>
+		if w := strings.Index(rest, " what="); w >= 0 {
+			k.What = rest[w+len(" what="):]
+			rest = rest[:w]
+		}
+		if pi := strings.Index(rest, " pattern="); pi >= 0 {
+			pat := rest[pi+len(" pattern="):]
+			rest = rest[:pi]
+			re, err := regexp.Compile("^(?s:" + pat + ")$")
+			if err != nil {
+				fmt.Fprintf(os.Stderr, "known_findings: bad pattern %q: %v\n", pat, err)
 			} else {
-				val, rest = rest, ""
-			}
-			switch key {
-			case "property":
-				k.Property = val
-			case "clause":
-				k.Clause = val
-			case "harness":
-				k.Harness = val
-			case "pattern":
-				re, err := regexp.Compile("^(?s:" + val + ")$")
-				if err != nil {
-					fmt.Fprintf(os.Stderr, "known_findings: bad pattern %q: %v\n", val, err)
-					continue
-				}
 				k.Pattern = re
-			case "what":
-				k.What = val
+			}
+		}
+		for _, f := range strings.Fields(rest) {
+			eq := strings.IndexByte(f, '=')
+			if eq < 0 {
+				continue
+			}
+			switch f[:eq] {
+			case "property":
+				k.Property = f[eq+1:]
+			case "clause":
+				k.Clause = f[eq+1:]
+			case "harness":
+				k.Harness = f[eq+1:]
 			}
 		}
 		if k.Property != "" && k.Clause != "" && k.Pattern != nil {
